@@ -1,7 +1,14 @@
 package h_c17
 
 import (
+	sdkmath "cosmossdk.io/math"
+	sdk "github.com/cosmos/cosmos-sdk/types"
+	acctypes "github.com/elys-network/elys/x/accountedpool/types"
+	ammtypes "github.com/elys-network/elys/x/amm/types"
 	aptypes "github.com/elys-network/elys/x/assetprofile/types"
+	levtypes "github.com/elys-network/elys/x/leveragelp/types"
+	ptypes "github.com/elys-network/elys/x/parameter/types"
+	perptypes "github.com/elys-network/elys/x/perpetual/types"
 	tktypes "github.com/elys-network/elys/x/tokenomics/types"
 	"github.com/elys-network/elys/zzvrf/wire"
 )
@@ -11,6 +18,24 @@ import (
 // sender (so that a stored-owner check, if it were the only guard, would let the message through).
 func adversarialState(env *wire.Env, msg interface{}, sender string) {
 	ctx := env.Ctx
+	// pool 1 exists in every module that keeps per-pool records, so that "pool not found" is never the reason a
+	// governance-only message about a pool is refused
+	env.Aprof.SetEntry(ctx, aptypes.Entry{BaseDenom: ptypes.BaseCurrency, Denom: "uusdc", Decimals: 6, Authority: sender})
+	ammPool := ammtypes.Pool{
+		PoolId: 1, Address: ammtypes.NewPoolAddress(1).String(), RebalanceTreasury: ammtypes.NewPoolRebalanceTreasury(1).String(),
+		PoolParams:  ammtypes.PoolParams{UseOracle: true, SwapFee: sdkmath.LegacyZeroDec(), FeeDenom: "uusdc"},
+		TotalShares: sdk.Coin{Denom: ammtypes.GetPoolShareDenom(1), Amount: sdkmath.NewInt(1000000)},
+		PoolAssets: []ammtypes.PoolAsset{
+			{Token: sdk.Coin{Denom: "uatom", Amount: sdkmath.NewInt(1000000)}, Weight: sdkmath.NewInt(1), ExternalLiquidityRatio: sdkmath.LegacyOneDec()},
+			{Token: sdk.Coin{Denom: "uusdc", Amount: sdkmath.NewInt(1000000)}, Weight: sdkmath.NewInt(1), ExternalLiquidityRatio: sdkmath.LegacyOneDec()},
+		},
+		TotalWeight: sdkmath.NewInt(2),
+	}
+	env.Amm.SetPool(ctx, ammPool)
+	env.Perp.SetPool(ctx, perptypes.NewPool(ammPool))
+	env.Lev.SetPool(ctx, levtypes.NewPool(1, sdkmath.LegacyNewDec(10)))
+	env.Mc.InitPoolParams(ctx, 1)
+	env.Acc.SetAccountedPool(ctx, acctypes.AccountedPool{PoolId: 1, TotalTokens: sdk.Coins{}, NonAmmPoolTokens: sdk.Coins{}})
 	switch m := msg.(type) {
 	case *aptypes.MsgUpdateEntry:
 		env.Aprof.SetEntry(ctx, aptypes.Entry{BaseDenom: m.BaseDenom, Denom: m.BaseDenom, Decimals: 6, Authority: sender})
